@@ -1,6 +1,7 @@
 """C14 — every HTTP request to the broker gets a well-formed response; legacy == versioned."""
 import json
 import os
+import re
 import threading
 import vlib
 from checks import brokerlib, c14live
@@ -410,7 +411,9 @@ def eval_refined(ctx, slines, sinfo):
                     gb = mb = b""        # the mux's redirect page is net/http's
                 if d.get("status") != md.get("status"):
                     bad = "status %s, model %s" % (d.get("status"), md.get("status"))
-                    if options:
+                    if op == "direct" and info.get("via") == "amp" and not info.get("prefix_ok") and not options:
+                        key = "amp-wrong-prefix-served"
+                    elif options:
                         key = "preflight-not-empty-200"
                     elif info.get("legacy"):
                         key = "legacy-not-equivalent"
@@ -474,6 +477,8 @@ def eval_histories(ctx, hist):
                         r = norm_debug(unhexb(r.split(",")[2])).hex()
                         want = norm_debug(unhexb(want.split(",")[2])).hex()
                 if r != want:
+                    show = lambda t: (bytes.fromhex(t).decode("latin1") if re.fullmatch(r"[0-9a-f]*", t) and len(t) % 2 == 0 else t)
+                    want, r = repr(show(want))[:200], repr(show(r))[:200]
                     ctx.violation("malformed-request-affects-later",
                                   "history %d: the response to %s differs when the %s requests before it are left out: with them %s, without %s" % (
                                       k, e["ev"][:60] if e["ev"].startswith("P:") else "%s %s" % (e["rq"]["method"], e["rq"]["path"]),
